@@ -83,3 +83,22 @@ Theorem vars_rename r e : vars (rename r e) = map r (vars e).
 Proof.
   induction e; simpl; try reflexivity; rewrite ?map_app; congruence.
 Qed.
+
+(* ---------- C15: substituting unique names for references ---------- *)
+(* a renaming that sends every reference to the referent's unique name preserves the meaning, when the
+   target environment gives the unique name the value the source environment gives the reference *)
+Theorem eval_rename_transport {T} (N : NumOps T) (r : string -> string) (rho rho' : string -> T) e :
+  (forall x, In x (vars e) -> rho' (r x) = rho x) ->
+  eval N rho' (rename r e) = eval N rho e.
+Proof.
+  intros H. rewrite eval_rename. apply eval_ext. exact H.
+Qed.
+
+(* successive substitution passes compose *)
+Theorem rename_compose r1 r2 e : rename r2 (rename r1 e) = rename (fun x => r2 (r1 x)) e.
+Proof. induction e; simpl; congruence. Qed.
+
+(* a pass that matches nothing (e.g. one keyed by strings where the expression holds symbols) is the
+   identity: every reference keeps its local name *)
+Theorem rename_id e : rename (fun x => x) e = e.
+Proof. induction e; simpl; congruence. Qed.
